@@ -1,6 +1,7 @@
 package props
 
 import (
+	"context"
 	"fmt"
 	"os"
 	"os/exec"
@@ -10,6 +11,7 @@ import (
 	"strings"
 	"sync"
 	"sync/atomic"
+	"time"
 
 	eval "github.com/onheap/eval"
 
@@ -468,7 +470,7 @@ func c08(r *rep.Run) {
 	r.Cov["schedules_explored"] = schedules
 	r.Add(histories+copies+schedules, steps+points+copies, steps+schedules+copies, steps+schedules+copies, nontrivial)
 
-	c08Race(r)
+	r.External(func() { c08Race(r) })
 	r.Finish()
 }
 
@@ -833,10 +835,20 @@ func c08Race(r *rep.Run) {
 	if r.Thorough() {
 		iters = "2000"
 	}
-	cmd := exec.Command(bin, "C08", iters)
+	limit := 15 * time.Minute
+	if r.Thorough() {
+		limit = 90 * time.Minute
+	}
+	cctx, cancel := context.WithTimeout(context.Background(), limit)
+	defer cancel()
+	cmd := exec.CommandContext(cctx, bin, "C08", iters)
 	cmd.Env = append(os.Environ(), "GORACE=halt_on_error=0 exitcode=66")
 	out, err := cmd.CombinedOutput()
 	text := string(out)
+	if cctx.Err() != nil {
+		r.Violate("race-pass-timeout", "racepass", sprintf("the free-running concurrent harness did not finish within %v: concurrent calls block each other", limit), map[string]interface{}{"output": firstLines(text, 40)})
+		return
+	}
 	if strings.Contains(text, "WARNING: DATA RACE") {
 		r.Violate("data-race", firstRaceSite(text), "the Go race detector reports a data race between concurrent Compile/CopyConfig calls on one shared Config", map[string]interface{}{"report": firstLines(text, 60)})
 		r.Cov["race_pass"] = "DATA RACE reported"
